@@ -50,7 +50,7 @@ lock = threading.Lock()
 
 
 def worker(i):
-    wt = "/tmp/mut/w%d" % i
+    wt = "/tmp/mut/%d-w%d" % (os.getpid(), i)
     subprocess.run("rm -rf %s; git -C /repo worktree prune; git -C /repo worktree add -q --detach %s HEAD" % (wt, wt), shell=True, check=True)
     outdir = "/verif/.work/mut-out-%d" % i
     try:
